@@ -122,3 +122,33 @@ Definition shift_ra (T' : Q) (k : cobj -> Z) (o : cobj) : cobj :=
 Definition circle_pos (T a d : Q) : Q * Q := (Qred (wrap T a), Qred d).
 Definition circle_ang (T : Q) (p q : Q * Q) : Q :=
   let s := wrap T (fst p - fst q) in (if Qleb s (T - s) then s else T - s) + Qabs (snd p - snd q).
+
+(* ---------- counting over linked patch pairs; catalogs with extents of their own ---------- *)
+(* count_pairs visits the linked patch pairs only.  The link test is made from ONE centre and ONE radius per patch for
+   the whole measurement, although the catalogs of a measurement share the centres only: the data may reach beyond the
+   randoms in one patch and stay inside them in the next, and the centres / radii are taken from whichever catalog holds
+   the most rows - so another measurement of the same objects (patches relabelled, a catalog split into two) comes with
+   another geometry.  [covers]: every object lies within the radius of its patch around the centre of its patch.
+   [link_sym]: the test of the code, both radii enlarged over all catalogs ([reach]).  [link_own]: a one-sided test, the own
+   radius r of the largest catalog for the patch being linked and the enlarged radius R for the other one.  [auto_link]: an
+   autocorrelation visits a patch pair once, from the lower id, if the lower id lists the higher one. *)
+Section Linked.
+  Context {P : Type} (ang : P -> P -> Q).
+  Definition lpairs_linked (link : nat -> nat -> bool) (A B : list (lobj P)) : pairs :=
+    flat_map (fun a => map (fun b => (ang (lp a) (lp b), lw a * lw b))
+                           (filter (fun b => link (lpatch a) (lpatch b)) B)) A.
+  Definition linked_count (link : nat -> nat -> bool) (lo hi : Q) (A B : list (lobj P)) : Q :=
+    w_in lo hi (lpairs_linked link A B).
+  Definition covers (c : nat -> P) (R : nat -> Q) (A : list (lobj P)) : bool :=
+    forallb (fun o => Qleb (ang (lp o) (c (lpatch o))) (R (lpatch o))) A.
+  Definition link_sym (c : nat -> P) (R : nat -> Q) (M : Q) (i j : nat) : bool :=
+    Qleb (ang (c i) (c j)) (R i + R j + M).
+  Definition link_own (c : nat -> P) (r R : nat -> Q) (M : Q) (i j : nat) : bool :=
+    Qleb (ang (c i) (c j)) (r i + R j + M).
+  Definition reach (c : nat -> P) (cats : list (list (lobj P))) (i : nat) : Q :=
+    qmax_list (map (fun o => ang (lp o) (c i)) (filter (fun o => (lpatch o =? i)%nat) (concat cats))).
+  Definition auto_link (link : nat -> nat -> bool) (i j : nat) : bool := (i <? j)%nat && link i j.
+End Linked.
+(* the line as a metric space, and the swap of the labels 0 and 1, for the examples *)
+Definition line_ang (x y : Q) : Q := Qabs (x - y).
+Definition swap01 (i : nat) : nat := match i with O => 1%nat | S O => O | _ => i end.
